@@ -34,7 +34,7 @@ ASSUMPTIONS = [
 ]
 DEGRADED = set()
 SHAPES = [(3, 3), (2, 4), (5, 2), (4, 3), (2, 2)]
-ESTS = ["default", "linreg-noint", "ridge"]
+ESTS = ["default", "linreg-noint", "ridge", "linreg-noint-prefitted"]
 
 
 def bounds(tier, seed):
@@ -112,13 +112,16 @@ def cases(group):
                     yield dict(kind="planted", X=group["X"], Q=Q, mode=mode, est=est)
 
 
-def _estimator(spec):
+def _estimator(spec, X=None, Y=None):
     from sklearn.linear_model import LinearRegression, Ridge
 
     if spec == "default":
         return None
     if spec == "linreg-noint":
         return LinearRegression(fit_intercept=False)
+    if spec == "linreg-noint-prefitted":
+        # the user's estimator object was used before, on other data of the same shape
+        return LinearRegression(fit_intercept=False).fit(X[::-1, ::-1] * 0.5 + 0.25, Y[::-1, ::-1] * -0.75 + 0.5)
     return Ridge(alpha=1e-2, fit_intercept=False)
 
 
@@ -127,7 +130,7 @@ def _ref_coef(spec, X, Y):
     if spec == "default":
         Xc, Yc = X - X.mean(0), Y - Y.mean(0)
         return np.linalg.lstsq(Xc, Yc, rcond=None)[0]
-    if spec == "linreg-noint":
+    if spec in ("linreg-noint", "linreg-noint-prefitted"):
         return np.linalg.lstsq(X, Y, rcond=None)[0]
     return np.linalg.solve(X.T @ X + 1e-2 * np.eye(X.shape[1]), X.T @ Y)
 
@@ -164,7 +167,7 @@ def check(case):
     n, dx = X.shape
     dy = Y.shape[1]
     mode, spec = case["mode"], case["est"]
-    model = OrthogonalRegression(use_orthogonal_projector=(mode == "projector"), linear_estimator=_estimator(spec))
+    model = OrthogonalRegression(use_orthogonal_projector=(mode == "projector"), linear_estimator=_estimator(spec, X, Y))
     with warnings.catch_warnings():
         warnings.simplefilter("ignore")
         try:
